@@ -212,6 +212,7 @@ func buildOverlay(repo, verif, out string) (string, *rewriteStats, error) {
 			inSelect := map[ast.Node]bool{}
 			helperIdx := map[string]int{}
 			var helperTypes []string
+			var helperLocal []bool
 			qual := func(tp *types.Package) string {
 				if tp == p.tpkg {
 					return ""
@@ -242,7 +243,31 @@ func buildOverlay(repo, verif, out string) (string, *rewriteStats, error) {
 				}
 				helperIdx[ts] = len(helperTypes)
 				helperTypes = append(helperTypes, ts)
+				helperLocal = append(helperLocal, mentionsLocalType(ct.Elem(), p.tpkg))
 				return len(helperTypes) - 1, true
+			}
+			// the element type of a channel may be declared inside a function: no file-level helper can name it, the
+			// conversion is written out where the operation stands
+			recv1 := func(hi int, x string) string {
+				if helperLocal[hi] {
+					t := helperTypes[hi]
+					return fmt.Sprintf("func(ch interface{}) %s { v, _ := verifshim.Recv(ch); r, _ := v.(%s); return r }(%s)", t, t, x)
+				}
+				return fmt.Sprintf("verifRecv1_%d(%s)", hi, x)
+			}
+			recv2 := func(hi int, x string) string {
+				if helperLocal[hi] {
+					t := helperTypes[hi]
+					return fmt.Sprintf("func(ch interface{}) (%s, bool) { v, ok := verifshim.Recv(ch); r, _ := v.(%s); return r, ok }(%s)", t, t, x)
+				}
+				return fmt.Sprintf("verifRecv2_%d(%s)", hi, x)
+			}
+			valOf := func(hi int, e string) string {
+				if helperLocal[hi] {
+					t := helperTypes[hi]
+					return fmt.Sprintf("func(v interface{}) %s { r, _ := v.(%s); return r }(%s)", t, t, e)
+				}
+				return fmt.Sprintf("verifVal_%d(%s)", hi, e)
 			}
 			text := func(e ast.Node) string { return string(src[off(e.Pos()):off(e.End())]) }
 			ast.Inspect(f, func(n ast.Node) bool {
@@ -262,11 +287,11 @@ func buildOverlay(repo, verif, out string) (string, *rewriteStats, error) {
 						hdr := ""
 						switch {
 						case s.Key == nil:
-							hdr = fmt.Sprintf("for { _, verifOk_ := verifRecv2_%d(%s); if !verifOk_ { break };", hi, text(s.X))
+							hdr = fmt.Sprintf("for { _, verifOk_ := %s; if !verifOk_ { break };", recv2(hi, text(s.X)))
 						case s.Tok == token.DEFINE:
-							hdr = fmt.Sprintf("for { %s, verifOk_ := verifRecv2_%d(%s); if !verifOk_ { break };", text(s.Key), hi, text(s.X))
+							hdr = fmt.Sprintf("for { %s, verifOk_ := %s; if !verifOk_ { break };", text(s.Key), recv2(hi, text(s.X)))
 						default:
-							hdr = fmt.Sprintf("for { var verifOk_ bool; %s, verifOk_ = verifRecv2_%d(%s); if !verifOk_ { break };", text(s.Key), hi, text(s.X))
+							hdr = fmt.Sprintf("for { var verifOk_ bool; %s, verifOk_ = %s; if !verifOk_ { break };", text(s.Key), recv2(hi, text(s.X)))
 						}
 						edits = append(edits, edit{off(s.Pos()), off(s.Body.Lbrace) + 1, hdr})
 						st.ChanSendsHooked = append(st.ChanSendsHooked, site(s.Pos())+":range")
@@ -367,9 +392,9 @@ func buildOverlay(repo, verif, out string) (string, *rewriteStats, error) {
 							}
 							inSelect[ue] = true
 							cases = append(cases, fmt.Sprintf("verifshim.RecvCase(%s)", text(ue.X)))
-							head := fmt.Sprintf("case %d: %s %s verifVal_%d(verifSel_.Value);", idx, text(comm.Lhs[0]), comm.Tok.String(), hi)
+							head := fmt.Sprintf("case %d: %s %s %s;", idx, text(comm.Lhs[0]), comm.Tok.String(), valOf(hi, "verifSel_.Value"))
 							if len(comm.Lhs) == 2 {
-								head = fmt.Sprintf("case %d: %s, %s %s verifVal_%d(verifSel_.Value), verifSel_.Ok;", idx, text(comm.Lhs[0]), text(comm.Lhs[1]), comm.Tok.String(), hi)
+								head = fmt.Sprintf("case %d: %s, %s %s %s, verifSel_.Ok;", idx, text(comm.Lhs[0]), text(comm.Lhs[1]), comm.Tok.String(), valOf(hi, "verifSel_.Value"))
 							}
 							ces = append(ces, clauseEdit{cc, head})
 							idx++
@@ -401,11 +426,11 @@ func buildOverlay(repo, verif, out string) (string, *rewriteStats, error) {
 						return true
 					}
 					inSelect[ue] = true
-					fn := "verifRecv1_"
+					repl := recv1(hi, text(ue.X))
 					if len(s.Lhs) == 2 {
-						fn = "verifRecv2_"
+						repl = recv2(hi, text(ue.X))
 					}
-					edits = append(edits, edit{off(ue.Pos()), off(ue.End()), fmt.Sprintf("%s%d(%s)", fn, hi, text(ue.X))})
+					edits = append(edits, edit{off(ue.Pos()), off(ue.End()), repl})
 					st.ChanSendsHooked = append(st.ChanSendsHooked, site(ue.Pos())+":recv")
 				case *ast.UnaryExpr:
 					if s.Op != token.ARROW || inSelect[s] {
@@ -416,11 +441,85 @@ func buildOverlay(repo, verif, out string) (string, *rewriteStats, error) {
 						st.ChanOpsUnhooked = append(st.ChanOpsUnhooked, site(s.Pos())+":recv")
 						return true
 					}
-					edits = append(edits, edit{off(s.Pos()), off(s.End()), fmt.Sprintf("verifRecv1_%d(%s)", hi, text(s.X))})
+					edits = append(edits, edit{off(s.Pos()), off(s.End()), recv1(hi, text(s.X))})
 					st.ChanSendsHooked = append(st.ChanSendsHooked, site(s.Pos())+":recv")
 				case *ast.GoStmt:
-					edits = append(edits, edit{off(s.Pos()), off(s.Call.Pos()), "verifshim.Go(func() { "})
-					edits = append(edits, edit{off(s.Call.End()), off(s.Call.End()), " })"})
+					// The function value and the arguments of a go statement are evaluated by the starting goroutine,
+					// at the statement; only the call itself happens in the new one. The rewritten statement keeps that:
+					//   go func(p T) { body }(a)   ->  verifshim.Go(func(p T) func() { return func() { body } }(a))
+					//   go f(a, b)                 ->  verifshim.Go(func(verifF FT, verifA0 T0, verifA1 T1) func() { return func() { verifF(verifA0, verifA1) } }(f, a, b))
+					if lit, isLit := s.Call.Fun.(*ast.FuncLit); isLit {
+						edits = append(edits, edit{off(s.Pos()), off(lit.Pos()), "verifshim.Go("})
+						if lit.Type.Results == nil || len(lit.Type.Results.List) == 0 {
+							edits = append(edits, edit{off(lit.Body.Lbrace), off(lit.Body.Lbrace), " func() { return func() "})
+							edits = append(edits, edit{off(lit.Body.Rbrace) + 1, off(lit.Body.Rbrace) + 1, " }"})
+						} else {
+							edits = append(edits, edit{off(lit.Type.Params.End()), off(lit.Body.Lbrace), " func() { return func() { func() " + text(lit.Type.Results) + " "})
+							edits = append(edits, edit{off(lit.Body.Rbrace) + 1, off(lit.Body.Rbrace) + 1, "() } }"})
+						}
+						edits = append(edits, edit{off(s.Call.End()), off(s.Call.End()), ")"})
+						st.ChanSendsHooked = append(st.ChanSendsHooked, site(s.Pos())+":go")
+						return true
+					}
+					eager := false
+					if tv, ok := p.info.Types[s.Call.Fun]; ok && tv.Type != nil && !tv.IsType() && !tv.IsBuiltin() {
+						if sig, isSig := tv.Type.Underlying().(*types.Signature); isSig {
+							np := sig.Params().Len()
+							okArgs := true
+							var decl, use []string
+							decl = append(decl, "verifF "+types.TypeString(tv.Type, qual))
+							for i := range s.Call.Args {
+								var pt types.Type
+								spread := false
+								switch {
+								case sig.Variadic() && i >= np-1:
+									sl, isSl := sig.Params().At(np - 1).Type().(*types.Slice)
+									if !isSl {
+										okArgs = false
+										break
+									}
+									if s.Call.Ellipsis.IsValid() {
+										pt, spread = sl, true
+									} else {
+										pt = sl.Elem()
+									}
+								case i < np:
+									pt = sig.Params().At(i).Type()
+								default:
+									okArgs = false // f(g()) with a multi-valued g
+								}
+								if pt == nil {
+									okArgs = false
+									break
+								}
+								decl = append(decl, fmt.Sprintf("verifA%d %s", i, types.TypeString(pt, qual)))
+								if spread {
+									use = append(use, fmt.Sprintf("verifA%d...", i))
+								} else {
+									use = append(use, fmt.Sprintf("verifA%d", i))
+								}
+							}
+							if len(s.Call.Args) < np && !(sig.Variadic() && len(s.Call.Args) == np-1) {
+								okArgs = false
+							}
+							if okArgs {
+								eager = true
+								edits = append(edits, edit{off(s.Pos()), off(s.Call.Pos()), "verifshim.Go(func(" + strings.Join(decl, ", ") + ") func() { return func() { verifF(" + strings.Join(use, ", ") + ") } }("})
+								sep := ""
+								if len(s.Call.Args) > 0 {
+									sep = ", "
+								}
+								edits = append(edits, edit{off(s.Call.Lparen), off(s.Call.Lparen) + 1, sep})
+								edits = append(edits, edit{off(s.Call.End()), off(s.Call.End()), ")"})
+							}
+						}
+					}
+					if !eager {
+						// (a built-in or a shape not handled above: the whole call moves into the new goroutine)
+						edits = append(edits, edit{off(s.Pos()), off(s.Call.Pos()), "verifshim.Go(func() { "})
+						edits = append(edits, edit{off(s.Call.End()), off(s.Call.End()), " })"})
+						st.ChanOpsUnhooked = append(st.ChanOpsUnhooked, site(s.Pos())+":go-arguments-evaluated-late")
+					}
 					st.ChanSendsHooked = append(st.ChanSendsHooked, site(s.Pos())+":go")
 				case *ast.CallExpr:
 					if id, ok := s.Fun.(*ast.Ident); ok && id.Name == "close" && len(s.Args) == 1 {
@@ -464,6 +563,9 @@ func buildOverlay(repo, verif, out string) (string, *rewriteStats, error) {
 			}
 			buf.Write(src[last:])
 			for i, ts := range helperTypes {
+				if helperLocal[i] {
+					continue
+				}
 				fmt.Fprintf(&buf, "\nfunc verifVal_%d(v interface{}) %s {\n\tif v == nil {\n\t\tvar z %s\n\t\treturn z\n\t}\n\treturn v.(%s)\n}\n", i, ts, ts, ts)
 				fmt.Fprintf(&buf, "func verifRecv2_%d(ch interface{}) (%s, bool) {\n\tv, ok := verifshim.Recv(ch)\n\treturn verifVal_%d(v), ok\n}\n", i, ts, i)
 				fmt.Fprintf(&buf, "func verifRecv1_%d(ch interface{}) %s {\n\tv, _ := verifshim.Recv(ch)\n\treturn verifVal_%d(v)\n}\n", i, ts, i)
@@ -777,4 +879,60 @@ func planResets(fset *token.FileSet, repo string, p *srcPkg, st *rewriteStats) r
 		}
 	}
 	return plan
+}
+
+// mentionsLocalType: the type names a type declared inside a function (not at package level, not predeclared)
+func mentionsLocalType(t types.Type, pkg *types.Package) bool {
+	seen := map[types.Type]bool{}
+	var walk func(t types.Type) bool
+	walk = func(t types.Type) bool {
+		if t == nil || seen[t] {
+			return false
+		}
+		seen[t] = true
+		switch u := t.(type) {
+		case *types.Named:
+			o := u.Obj()
+			if o != nil && o.Pkg() != nil && o.Parent() != nil && o.Parent() != o.Pkg().Scope() {
+				return true
+			}
+			if ta := u.TypeArgs(); ta != nil {
+				for i := 0; i < ta.Len(); i++ {
+					if walk(ta.At(i)) {
+						return true
+					}
+				}
+			}
+			return false
+		case *types.Pointer:
+			return walk(u.Elem())
+		case *types.Slice:
+			return walk(u.Elem())
+		case *types.Array:
+			return walk(u.Elem())
+		case *types.Chan:
+			return walk(u.Elem())
+		case *types.Map:
+			return walk(u.Key()) || walk(u.Elem())
+		case *types.Struct:
+			for i := 0; i < u.NumFields(); i++ {
+				if walk(u.Field(i).Type()) {
+					return true
+				}
+			}
+		case *types.Signature:
+			for i := 0; i < u.Params().Len(); i++ {
+				if walk(u.Params().At(i).Type()) {
+					return true
+				}
+			}
+			for i := 0; i < u.Results().Len(); i++ {
+				if walk(u.Results().At(i).Type()) {
+					return true
+				}
+			}
+		}
+		return false
+	}
+	return walk(t)
 }
